@@ -96,13 +96,16 @@ fn parse<'a>(out: &'a [u8], header: bool) -> Result<Vec<Hunk<'a>>, String> {
         return Ok(hunks);
     }
     if header {
-        let h1 = format!("--- {}\n", HDR_A);
-        let h2 = format!("+++ {}\n", HDR_B);
-        if lines.len() < 2 || lines[0] != h1.as_bytes() || lines[1] != h2.as_bytes() {
+        // the statement does not fix the text of the file header: two lines, "--- ..." and
+        // "+++ ...", before the first hunk
+        if lines.len() < 2 || !lines[0].starts_with(b"--- ") || !lines[1].starts_with(b"+++ ") {
             return Err(format!(
-                "output does not start with the file header: {}",
+                "output does not start with a file header: {}",
                 lossy(out)
             ));
+        }
+        if !lines[0].ends_with(format!("{}\n", HDR_A).as_bytes()) || !lines[1].ends_with(format!("{}\n", HDR_B).as_bytes()) {
+            return Err(format!("file header does not carry the configured names: {}", lossy(out)));
         }
         i = 2;
         if i == lines.len() {
@@ -292,7 +295,6 @@ fn apply_strict(hunks: &[Hunk], old: &[u8], new: &[u8], radius: usize) -> Result
 struct Rendered {
     display: String,
     written: Vec<u8>,
-    hunks_concat: String,
 }
 
 fn render<T: DiffableStr + ?Sized>(
@@ -317,15 +319,7 @@ fn render<T: DiffableStr + ?Sized>(
         let display = u.to_string();
         let mut written = vec![];
         u.to_writer(&mut written).unwrap();
-        let mut hunks_concat = String::new();
-        for h in u.iter_hunks() {
-            hunks_concat.push_str(&h.to_string());
-        }
-        Rendered {
-            display,
-            written,
-            hunks_concat,
-        }
+        Rendered { display, written }
     })
     .map_err(|p| format!("panic: {}", p))?;
     Ok((r, swaps))
@@ -363,16 +357,6 @@ fn check_rendering(r: &Rendered, old: &[u8], new: &[u8], radius: usize, header: 
             r.display,
             lossy(&r.written)
         ));
-    }
-    // Display is the (optional) file header followed by the hunks' own Display
-    let body = if header {
-        let h = format!("--- {}\n+++ {}\n", HDR_A, HDR_B);
-        r.display.strip_prefix(&h).map(|s| s.to_string()).unwrap_or_default()
-    } else {
-        r.display.clone()
-    };
-    if body != r.hunks_concat {
-        return Err("Display of the diff is not the concatenation of its hunks' Display".into());
     }
     let mut fp = Fp::new();
     for h in &hunks {
@@ -415,14 +399,21 @@ pub fn check_pair(old: &[u8], new: &[u8], radii: &[usize]) -> Verdict {
                             render::<[u8]>(alg, old, new, radius, header, repair)?
                         };
                         let f = check_rendering(&r, old, new, radius, header, as_str.is_some())?;
-                        if kind == 0 && !header {
-                            // the one-call helper renders the same thing
+                        if kind == 0 {
+                            // the one-call helper renders a unified diff as well: same oracle
                             let (a, b) = as_str.unwrap();
-                            let s = subject(|| similar::udiff::unified_diff(alg, a, b, radius, None))
-                                .map_err(|p| format!("udiff::unified_diff: panic: {}", p))?;
-                            if !repair && s != r.display {
-                                return Err("udiff::unified_diff differs from the builder's rendering".into());
-                            }
+                            let hdr = if header { Some((HDR_A, HDR_B)) } else { None };
+                            let s = subject(|| {
+                                similar::verif::set_swap_repair(repair);
+                                similar::udiff::unified_diff(alg, a, b, radius, hdr)
+                            })
+                            .map_err(|p| format!("udiff::unified_diff: panic: {}", p))?;
+                            let hr = Rendered {
+                                written: s.as_bytes().to_vec(),
+                                display: s,
+                            };
+                            check_rendering(&hr, old, new, radius, header, true)
+                                .map_err(|e| format!("udiff::unified_diff: {}", e))?;
                         }
                         Ok((f, swaps))
                     };
